@@ -193,6 +193,9 @@ class InlineGen(ProgGen):
         if rng.random() < 0.4:
             B.append(f"      if ({self.cond(envl, 1)}) {lx} = {ex.damp(ex.real_expr(envl, 1))}")
         B.append('    end do')
+        if f['expr_actual_modified']:
+            # the intent(in) dummy is read after the intent(out) dummy has been defined (hazard slice)
+            B.append(f"    {dn['sout']} = {dn['sout']} + real(mod({dn['kin']}, 7), {rk})*0.25_{rk}")
         for o in opt:
             if o.typ == 'int':
                 if rng.random() < 0.5:
